@@ -1,7 +1,9 @@
 """C09 - ENABLE_PEDANTIC switch.  Proof: coq/Props/C09.v over the switch logic, guards and cross reference regenerated
 into Gen/Env.v by translator/t_env.py.  Correspondence stream `env-history`: operation histories (setenv / unsetenv /
 enable_pedantic() / disable_pedantic() / decorate a fresh function or class with one of the seven decorators / create a decorator
-object and keep it / apply a kept decorator object to a fresh target / call a decorated object) run on the real package (harness/w_env.py, in processes started with the variable unset, "0" and "1") and on the model
+object and keep it / apply a kept decorator object to a fresh target / decorate AGAIN an object that went through a decorator
+earlier in the history (the one that was given, or the one that came back) / define a fresh SUBCLASS of a decorated class and
+decorate it / call a decorated object) run on the real package (harness/w_env.py, in processes started with the variable unset, "0" and "1") and on the model
 and the specification inside Coq (Model/EnvEval.v)."""
 import io, json, os, re, tokenize
 from lib import *
@@ -11,13 +13,13 @@ MODEL = ['Model/EnvEval.vo']
 PROPS = 'Props/C09.v'
 PRE = 'From Coq Require Import List ZArith.\nFrom PV Require Import Model.EnvEval.\nImport ListNotations.'
 
-SETENV, UNSETENV, ENABLE, DISABLE, DECORATE, CALL, CREATE, APPLY = 0, 1, 2, 3, 4, 5, 6, 7
+SETENV, UNSETENV, ENABLE, DISABLE, DECORATE, CALL, CREATE, APPLY, REDECO, SUBDECO = 0, 1, 2, 3, 4, 5, 6, 7, 8, 9
 UNSET = 5
 DNAMES = ['pedantic', 'pedantic_require_docstring', 'pedantic_class', 'pedantic_class_require_docstring', 'trace_class',
           'timer_class', 'for_all_methods']
 OBS = {0: '-', 1: 'returned the very object, unmodified', 2: 'returned a new/modified object', 3: 'decoration raised',
        4: 'call unchecked (plain)', 5: 'call checked/wrapped', 6: 'switch failed at call time', 7: 'inconsistent probes',
-       8: 'harness problem'}
+       8: 'harness problem', 9: 'nothing (the statement leaves it open)'}
 VALNAME = {0: '"0"', 1: '"1"', 2: '"2"', 3: '""', 4: '"true"', 5: 'unset'}
 TOGGLES = [[SETENV, 0], [SETENV, 1], [UNSETENV], [ENABLE], [DISABLE]]
 
@@ -49,50 +51,119 @@ def in_domain_prefix(case):
     return n
 
 
+def fam_of(d):
+    return 'fn' if d in (0, 1) else 'cls'
+
+
+class Book:
+    """the generator's bookkeeping, one operation at a time (see walk2)"""
+    def __init__(self, init):
+        self.env, self.created, self.objects, self.dirty, self.n_pid, self.n_ops = init, [], [], set(), 0, 0
+
+    def push(self, op, commit=True):
+        env, created, objects = self.env, self.created, self.objects
+        r = {'op': op, 'env': env, 'n_obj': len(objects), 'n_created': len(created), 'd': None, 'c_env': None, 'how': None,
+             'src': None, 'ok': True, 'obj': None}
+        code = op[0]
+        given = t = None
+        n_pid = self.n_pid
+        if code == DECORATE:
+            r.update(d=op[1], c_env=env, how='fresh')
+            t = op[2] if len(op) > 2 else 0
+        elif code == APPLY and 0 <= op[1] < len(created):
+            r.update(d=created[op[1]][0], c_env=created[op[1]][1], how='fresh')
+            t = op[2] if len(op) > 2 else 0
+        elif code in (REDECO, SUBDECO) and len(op) >= (5 if code == REDECO else 4) and 0 <= op[1] < len(objects):
+            kind, x = op[3:5] if code == REDECO else op[2:4]
+            src = objects[op[1]]
+            dd = (x, env) if kind == 0 and 0 <= x <= 6 else created[x] if kind != 0 and 0 <= x < len(created) else None
+            if dd is not None and fam_of(dd[0]) == src['fam'] and (code == REDECO or src['fam'] == 'cls'):
+                r.update(d=dd[0], c_env=dd[1], how='again' if code == REDECO else 'sub', src=src)
+                t = src['t']
+                if code == REDECO:
+                    given = src['res'] if op[2] else src['given']
+        if r['d'] is not None:
+            if r['how'] != 'again':
+                given = n_pid
+                n_pid += 1
+            # inputs outside the statement, which only says "they check" about an enabled decorator: targets an ENABLED decorator
+            # rejects or cannot check (kinds >= 10); an ENABLED decorator applied to something an enabled decorator produced or
+            # changed before - pedantic rejects its own *args/**kwargs wrappers (PedanticDocstringException: documented
+            # arguments do not match), a class decorated twice trips over the hook method the first pass installed; an Enum
+            # with members cannot be subclassed at all.  All of them are fine while the variable is "0".
+            if env != 0 and (t >= 10 or (r['how'] == 'again' and given in self.dirty)):
+                r['ok'] = False
+            if r['how'] == 'sub' and t == 10:
+                r['ok'] = False
+            if env in (1, UNSET) and fam_of(r['d']) == 'fn':
+                res = n_pid
+                n_pid += 1
+            else:
+                res = given
+            r['obj'] = {'fam': fam_of(r['d']), 't': t, 'env': env, 'given': given, 'res': res, 'sub': r['how'] == 'sub',
+                        'base': r['src']['res'] if r['how'] == 'sub' else None}
+            if commit:
+                if env != 0:
+                    self.dirty.add(res)
+                objects.append(r['obj'])
+        if commit:
+            self.n_pid = n_pid
+            if code == CREATE:
+                created.append((op[1], env))
+            self.env = env_after(env, op)
+        return r
+
+
+def walk2(case):
+    """per op a dict: op, env (value of the variable before it), n_obj / n_created (decorated objects / decorator objects before
+    it), d (decorator kind if the op decorates something, else None), c_env (value of the variable when that decorator object
+    was created), how ('fresh' / 'again' / 'sub'), src (the earlier object a re-decoration / subclass refers to: a dict of
+    `objects`), ok (False: an input the generator must not produce, see history_ok), obj (the object the op makes, if any).
+    objects: fam, t, env (value of the variable when it was decorated), given / res (abstract identities of the python objects:
+    a class decorator returns the class it was given; an enabled function decorator a new function), sub (made by op 9)."""
+    book = Book(case['init'])
+    return [book.push(op) for op in case['ops']]
+
+
 def walk(case):
     """per op: (op, value of the variable before it, number of decorated objects before it, decorator objects created before
     it, decorator kind if the op decorates something else None, value of the variable when that decorator object was created)"""
-    env = case['init']
-    n_obj, created = 0, []
-    for op in case['ops']:
-        d = c_env = None
-        if op[0] == DECORATE:
-            d, c_env = op[1], env
-        elif op[0] == APPLY and op[1] < len(created):
-            d, c_env = created[op[1]]
-        yield op, env, n_obj, len(created), d, c_env
-        if d is not None:
-            n_obj += 1
-        if op[0] == CREATE:
-            created.append((op[1], env))
-        env = env_after(env, op)
+    for r in walk2(case):
+        yield r['op'], r['env'], r['n_obj'], r['n_created'], r['d'], r['c_env']
 
 
 def features(case):
-    """(decorations, calls, inert-toggle witnesses, split witnesses).  inert-toggle witness: a call of an object after the
-    tracked value of the variable has changed between enabled and disabled since its decoration.  split witness: a decorator
-    object applied after the value changed between enabled and disabled since the object was created"""
+    """(decorations, calls, inert-toggle witnesses, split witnesses, again witnesses, subclass witnesses).  inert-toggle witness: a
+    call of an object after the tracked value of the variable has changed between enabled and disabled since its decoration.
+    split witness: a decorator object applied after the value changed between enabled and disabled since the object was
+    created.  again witness: an object decorated again after such a change since its earlier decoration ([on->off, off->on]).
+    subclass witness: a subclass decorated after such a change since the decoration of its base class ([on->off, off->on])"""
     deco_env = []
     n_dec = n_call = witnesses = split = 0
-    for op, env, n_obj, n_created, d, c_env in walk(case):
-        if d is not None:
+    again, sub = [0, 0], [0, 0]
+    for r in walk2(case):
+        op, env = r['op'], r['env']
+        if r['d'] is not None:
             deco_env.append(env)
             n_dec += 1
-            if (c_env == 0) != (env == 0):
+            if (r['c_env'] == 0) != (env == 0):
                 split += 1
+            if r['src'] is not None and (r['src']['env'] == 0) != (env == 0):
+                (again if r['how'] == 'again' else sub)[0 if env == 0 else 1] += 1
         elif op[0] == CALL:
             n_call += 1
             if op[1] < len(deco_env) and (deco_env[op[1]] == 0) != (env == 0):
                 witnesses += 1
-    return n_dec, n_call, witnesses, split
+    return n_dec, n_call, witnesses, split, again, sub
 
 
-def awkward_ok(case):
-    """targets that an *enabled* decorator rejects or cannot check are only meaningful while the variable is "0" """
-    for op, env, n_obj, n_created, d, c_env in walk(case):
-        if d is not None and op[2] >= 10 and env != 0:
-            return False
-    return True
+def history_ok(case):
+    """targets that an *enabled* decorator rejects or cannot check - awkward kinds, its own earlier products - are only
+    meaningful while the variable is "0" (see walk2)"""
+    return all(r['ok'] for r in walk2(case))
+
+
+awkward_ok = history_ok
 
 
 def rand_decorate(rng, awkward=False):
@@ -106,15 +177,57 @@ def target_for(rng, d, awkward=False):
     return rng.choice([10, 11, 12]) if awkward else rng.choice([0, 0, 1, 2])
 
 
-def gen_history(rng, length, values=(0, 1), awkward_share=0.0, split_share=0.35):
+def class_decorator(rng):
+    d = rng.randrange(2, 7)
+    return d, (rng.randrange(4) if d == 6 else 0)
+
+
+def rand_again(rng, book):
+    """an op that decorates again an earlier object, or a fresh subclass of one, admissible (history_ok) in the state of the
+    bookkeeping; None if there is none"""
+    objects = book.objects
+    if not objects:
+        return None
+    created = [d for d, _ in book.created]
+    for _ in range(6):
+        i = len(objects) - 1 - min(len(objects) - 1, int(rng.expovariate(0.7))) if rng.random() < 0.6 else rng.randrange(len(objects))
+        o = objects[i]
+        kept = [k for k, d in enumerate(created) if fam_of(d) == o['fam']]
+        if o['fam'] == 'cls' and rng.random() < 0.45:
+            if kept and rng.random() < 0.3:
+                op = [SUBDECO, i, 1, rng.choice(kept)]
+            else:
+                op = [SUBDECO, i, 0, *class_decorator(rng)]
+        else:
+            w = rng.randrange(2)
+            if kept and rng.random() < 0.3:
+                op = [REDECO, i, w, 1, rng.choice(kept)]
+            elif o['fam'] == 'fn':
+                op = [REDECO, i, w, 0, rng.randrange(2), 0]
+            else:
+                op = [REDECO, i, w, 0, *class_decorator(rng)]
+        if book.push(op, commit=False)['ok']:
+            return op
+    return None
+
+
+def gen_history(rng, length, values=(0, 1), awkward_share=0.0, split_share=0.35, again_share=0.3):
     init = rng.choice([UNSET, 0, 1] if values == (0, 1) else [UNSET, 0, 1, 2, 3, 4])
     env, ops, n_obj, created = init, [], 0, []
+    book = Book(init)
     for _ in range(length):
+        for op in ops[book.n_ops:]:                 # bring the bookkeeping up to date
+            book.push(op)
+        book.n_ops = len(ops)
         r = rng.random()
-        if r < 0.30 or n_obj == 0 and r < 0.5:
+        if r < 0.34 or n_obj == 0 and r < 0.5:
             aw = env == 0 and rng.random() < awkward_share
             k = rng.random()
-            if k < split_share and created:
+            again = rand_again(rng, book) if n_obj and rng.random() < again_share else None
+            if again is not None:
+                ops.append(again)
+                n_obj += 1
+            elif k < split_share and created:
                 j = rng.randrange(len(created))
                 ops.append([APPLY, j, target_for(rng, created[j], aw)])
                 n_obj += 1
@@ -125,7 +238,7 @@ def gen_history(rng, length, values=(0, 1), awkward_share=0.0, split_share=0.35)
             else:
                 ops.append(rand_decorate(rng, aw))
                 n_obj += 1
-        elif r < 0.62 and n_obj:
+        elif r < 0.64 and n_obj:
             # mostly the most recent objects, sometimes any
             i = n_obj - 1 - min(n_obj - 1, int(rng.expovariate(0.8))) if rng.random() < 0.7 else rng.randrange(n_obj)
             ops.append([CALL, i])
@@ -169,6 +282,48 @@ def gen_cases(rng, tier, scale):
                         if rng.random() < 0.5:
                             ops += [rng.choice(TOGGLES), [APPLY, 0, rng.choice([0, 1, 2])], [CALL, 1], [CALL, 0]]
                         cases.append({'stream': 'small-scope-split', 'proc': proc, 'init': init, 'ops': ops})
+    # 1c. an object decorated, the switch toggled, THE SAME object (what was given / what came back) decorated again - directly or
+    #     with a decorator object created before the toggle -, both called, a toggle, both called again.  Combinations the
+    #     statement says nothing about (history_ok) are left out
+    for proc in procs:
+        for init in (UNSET, 0, 1):
+            for d in range(7):
+                for a in TOGGLES:
+                    for w in (0, 1):
+                        for d2 in ((0, 1) if d < 2 else (2, 3, 4, 5, 6)):
+                            if tier == 'quick' and rng.random() > (0.45 if proc == UNSET else 0.12):
+                                continue
+                            t = rng.choice([0, 1, 2])
+                            u, u2 = (rng.randrange(4) if x == 6 else 0 for x in (d, d2))
+                            if rng.random() < 0.3:
+                                ops = [[CREATE, d2, u2], [DECORATE, d, t, u], [CALL, 0], a, [REDECO, 0, w, 1, 0]]
+                            else:
+                                ops = [[DECORATE, d, t, u], [CALL, 0], a, [REDECO, 0, w, 0, d2, u2]]
+                            ops += [[CALL, 1], [CALL, 0], rng.choice(TOGGLES), [CALL, 1], [CALL, 0]]
+                            c = {'stream': 'small-scope-again', 'proc': proc, 'init': init, 'ops': ops}
+                            if history_ok(c):
+                                cases.append(c)
+    # 1d. class hierarchies whose members are decorated at different states of the switch: a class decorated, a toggle, a fresh
+    #     subclass of it decorated, both called, a toggle, both called; sometimes the base class is then decorated again and
+    #     a second subclass follows
+    for proc in procs:
+        for init in (UNSET, 0, 1):
+            for d in range(2, 7):
+                for a in TOGGLES:
+                    for d2 in range(2, 7):
+                        if tier == 'quick' and rng.random() > (0.6 if proc == UNSET else 0.15):
+                            continue
+                        t = rng.choice([0, 1, 2])
+                        u, u2 = (rng.randrange(4) if x == 6 else 0 for x in (d, d2))
+                        ops = [[DECORATE, d, t, u], a, [SUBDECO, 0, 0, d2, u2], [CALL, 1], [CALL, 0], rng.choice(TOGGLES), [CALL, 1], [CALL, 0]]
+                        if rng.random() < 0.4:
+                            ops += [[REDECO, 0, 1, 0, *class_decorator(rng)], rng.choice(TOGGLES), [SUBDECO, 2, 0, *class_decorator(rng)],
+                                    [CALL, 3], [CALL, 1], [CALL, 0]]
+                        c = {'stream': 'small-scope-subclass', 'proc': proc, 'init': init, 'ops': ops}
+                        while not history_ok(c) and len(c['ops']) > 8:      # drop the optional tail if it is not admissible
+                            c = dict(c, ops=c['ops'][:8])
+                        if history_ok(c):
+                            cases.append(c)
     n = (500 if tier == 'quick' else 25000) * scale
     max_len = 30 if tier == 'quick' else 200
     # 2. valid: in-domain histories
@@ -191,18 +346,45 @@ def gen_cases(rng, tier, scale):
             env, n_obj, n_created = env_after(e, op), no + (d is not None), nc + (op[0] == CREATE)
         flip = rng.choice([[SETENV, 1], [ENABLE], [UNSETENV]] if env == 0 else [[SETENV, 0], [DISABLE]])
         r = rng.random()
-        new_deco = 0
-        if r < 0.3:
+        new_deco, new_obj = 0, 1
+        if r < 0.2:
             ins = [rand_decorate(rng), flip, [CALL, n_obj]]
-        elif r < 0.6:
+        elif r < 0.4:
             ins = [flip, rand_decorate(rng), [CALL, n_obj], rng.choice(TOGGLES), [CALL, n_obj]]
-        else:
+        elif r < 0.6:
             ins = [[CREATE, rng.randrange(7), rng.randrange(4)], flip, [APPLY, n_created, rng.choice([0, 1, 2])], [CALL, n_obj]]
             new_deco = 1
+        elif r < 0.8:
+            # decorate, flip, decorate THE SAME object again (what was given / what came back), call both
+            dec = rand_decorate(rng)
+            d2 = rng.randrange(2) if dec[1] < 2 else None
+            ins = [dec, flip, [REDECO, n_obj, rng.randrange(2), 0, *((d2, 0) if d2 is not None else class_decorator(rng))],
+                   [CALL, n_obj + 1], [CALL, n_obj]]
+            new_obj = 2
+        else:
+            # decorate a class, flip, decorate a fresh subclass of it, call both
+            ins = [[DECORATE, *class_decorator(rng)], flip, [SUBDECO, n_obj, 0, *class_decorator(rng)], [CALL, n_obj + 1], [CALL, n_obj]]
+            ins[0] = [DECORATE, ins[0][1], rng.choice([0, 1, 2]), ins[0][2]]
+            new_obj = 2
         # later calls/applications refer to objects by position: shift the references behind the insertion
-        tail = [[CALL, op[1] + 1] if op[0] == CALL and op[1] >= n_obj else
-                [APPLY, op[1] + new_deco] + op[2:] if op[0] == APPLY and op[1] >= n_created else op for op in ops[pos:]]
-        cases.append({'stream': 'near-miss', 'proc': rng.choice(procs), 'init': c['init'], 'ops': ops[:pos] + ins + tail})
+        def shift(op):
+            if op[0] in (CALL, REDECO, SUBDECO) and op[1] >= n_obj:
+                op = [op[0], op[1] + new_obj] + op[2:]
+            if op[0] == APPLY and op[1] >= n_created:
+                op = [APPLY, op[1] + new_deco] + op[2:]
+            if op[0] == REDECO and op[3] == 1 and op[4] >= n_created:
+                op = op[:4] + [op[4] + new_deco] + op[5:]
+            if op[0] == SUBDECO and op[2] == 1 and op[3] >= n_created:
+                op = op[:3] + [op[3] + new_deco] + op[4:]
+            return op
+        nm = {'stream': 'near-miss', 'proc': rng.choice(procs), 'init': c['init'], 'ops': ops[:pos] + ins + [shift(list(op)) for op in ops[pos:]]}
+        if not history_ok(nm):
+            # the insertion made a later re-decoration inadmissible (the object it refers to is an enabled product now): keep
+            # the admissible prefix
+            good_len = next(k for k, r_ in enumerate(walk2(nm)) if not r_['ok'])
+            nm['ops'] = nm['ops'][:max(good_len, pos + len(ins))]
+        if history_ok(nm):
+            cases.append(nm)
     # 4. malformed: values outside the domain, calls of objects that do not exist, targets that an enabled decorator rejects
     #    (enum, dataclass, non-function, wrong or missing docstring/annotations) while the variable is "0"
     for _ in range(max(60, n // 3)):
@@ -215,7 +397,18 @@ def gen_cases(rng, tier, scale):
             c['stream'] = 'malformed-value'
         else:
             c = gen_history(rng, rng.choice([3, 6, 12]))
-            c['ops'].insert(rng.randrange(len(c['ops']) + 1), rng.choice([[CALL, rng.choice([7, 50, 1000])], [APPLY, rng.choice([9, 77]), 0]]))
+            pos = rng.randrange(len(c['ops']) + 1)
+            before = [r['obj'] for r in walk2(dict(c, ops=c['ops'][:pos])) if r['obj'] is not None]
+            bad = [[CALL, rng.choice([7, 50, 1000])], [APPLY, rng.choice([9, 77]), 0], [REDECO, rng.choice([50, 400]), 0, 0, 0, 0],
+                   [SUBDECO, 77, 0, 2, 0], [REDECO, 0, 1, 1, 99], [SUBDECO, 0, 1, 99]]
+            if before:
+                # a class decorator on a function, a function decorator on a class, a subclass of a function: none of them an
+                # input of the statement; model, specification and worker agree that nothing happens
+                i = rng.randrange(len(before))
+                wrong = rng.randrange(2, 7) if before[i]['fam'] == 'fn' else rng.randrange(2)
+                bad += [[REDECO, i, rng.randrange(2), 0, wrong, 0]] * 2
+                bad += [[SUBDECO, i, 0, rng.randrange(2, 7) if before[i]['fam'] == 'fn' else rng.randrange(2), 0]] * 2
+            c['ops'].insert(pos, rng.choice(bad))
             c['stream'] = 'malformed-index'
         c['proc'] = rng.choice(procs)
         cases.append(c)
@@ -245,14 +438,33 @@ def judge(c, impl, model):
     corr = io_ == mo
     what = []
     dom = in_domain_prefix(c)
+    info = None
     for k in range(min(dom, len(io_), len(sp))):
+        if sp[k] == 9:                          # the statement leaves it open (see Spec/EnvSpec.v): compared with the model only
+            continue
         if io_[k] != sp[k]:
             op = c['ops'][k]
-            info = list(walk(c))[k]
-            subject = f'{DNAMES[op[1]]} (target kind {op[2]})' if op[0] == DECORATE else \
-                f'decorator object #{op[1]} = {DNAMES[info[4]] if info[4] is not None else "?"} created while the variable was ' \
-                f'{VALNAME.get(info[5], info[5])}, applied while it is {VALNAME.get(info[1], info[1])} (target kind {op[2]})' \
-                if op[0] == APPLY else f'creation of a {DNAMES[op[1]]} decorator object' if op[0] == CREATE else f'object #{op[1]}'
+            info = info or walk2(c)
+            r = info[k]
+            dn = DNAMES[r['d']] if r['d'] is not None else '?'
+            how = f'decorator object #{op[4] if op[0] == REDECO else op[3]} = {dn} created while the variable was {VALNAME.get(r["c_env"], r["c_env"])}' \
+                if op[0] in (REDECO, SUBDECO) and (op[3] if op[0] == REDECO else op[2]) == 1 else dn
+            if op[0] == DECORATE:
+                subject = f'{DNAMES[op[1]]} (target kind {op[2]})'
+            elif op[0] == APPLY:
+                subject = f'decorator object #{op[1]} = {dn} created while the variable was {VALNAME.get(r["c_env"], r["c_env"])}, ' \
+                          f'applied while it is {VALNAME.get(r["env"], r["env"])} (target kind {op[2]})'
+            elif op[0] == CREATE:
+                subject = f'creation of a {DNAMES[op[1]]} decorator object'
+            elif op[0] == REDECO and r['src'] is not None:
+                subject = f'{how} applied, while the variable is {VALNAME.get(r["env"], r["env"])}, to the object that was ' \
+                          f'{"returned by" if op[2] else "given to"} the decorator of object #{op[1]} (decorated while the variable was ' \
+                          f'{VALNAME.get(r["src"]["env"], r["src"]["env"])}; target kind {r["src"]["t"]})'
+            elif op[0] == SUBDECO and r['src'] is not None:
+                subject = f'{how} applied, while the variable is {VALNAME.get(r["env"], r["env"])}, to a fresh subclass of object ' \
+                          f'#{op[1]} (a class decorated while the variable was {VALNAME.get(r["src"]["env"], r["src"]["env"])}; target kind {r["src"]["t"]})'
+            else:
+                subject = f'object #{op[1]}'
             what.append(f'op {k} {subject}: observed "{OBS.get(io_[k], io_[k])}", the statement demands "{OBS.get(sp[k], sp[k])}"'
                         f'{" " + str(impl.get("details", {}).get(str(k), "")) if impl.get("details", {}).get(str(k)) else ""}')
             break
@@ -270,45 +482,58 @@ def vclass(what):
     m = re.search(r'observed "([^"]*)", the statement demands "([^"]*)"', what)
     if not m:
         return what[:60]
-    kind = 'apply' if 'decorator object #' in what else 'create' if 'creation of' in what else 'call' if ' object #' in what else 'decorate'
+    kind = 'again' if 'to the object that was' in what else 'subclass' if 'to a fresh subclass' in what else \
+        'apply' if 'decorator object #' in what else 'create' if 'creation of' in what else 'call' if ' object #' in what else 'decorate'
     return f'{kind}: {m.group(1)} / {m.group(2)}'
 
 
 # ---------------------------------------------------------------------------------------------------------------
 # shrinking: drop operations while the violation persists (batches through the same worker and the same Coq evaluation)
 # ---------------------------------------------------------------------------------------------------------------
+def without(c, p):
+    """the history without op p and without everything that refers to what op p made (calls / re-decorations / subclasses of
+    its object, applications of its decorator object, and so on transitively); the remaining references are renumbered"""
+    obj_map, deco_map, new_ops = {}, {}, []
+    n_obj = n_deco = 0
+    for q, r in enumerate(walk2(c)):
+        op = list(r['op'])
+        code = op[0]
+        drop = q == p
+        if code in (CALL, REDECO, SUBDECO) and len(op) > 1 and op[1] in obj_map:
+            if obj_map[op[1]] is None:
+                drop = True
+            else:
+                op[1] = obj_map[op[1]]
+        if code == APPLY and op[1] in deco_map:
+            if deco_map[op[1]] is None:
+                drop = True
+            else:
+                op[1] = deco_map[op[1]]
+        if code in (REDECO, SUBDECO):
+            ki, xi = (3, 4) if code == REDECO else (2, 3)
+            if len(op) > xi and op[ki] == 1 and op[xi] in deco_map:
+                if deco_map[op[xi]] is None:
+                    drop = True
+                else:
+                    op[xi] = deco_map[op[xi]]
+        if r['d'] is not None:
+            obj_map[r['n_obj']] = None if drop else n_obj
+            n_obj += not drop
+        if code == CREATE:
+            deco_map[r['n_created']] = None if drop else n_deco
+            n_deco += not drop
+        if not drop:
+            new_ops.append(op)
+    return dict(c, ops=new_ops)
+
+
 def drop_candidates(c):
-    ops = c['ops']
-    info = list(walk(c))
-    out = []
-    for p, op in enumerate(ops):
-        if info[p][4] is not None:                       # decorates: drop it and the calls of its object, renumber the others
-            k = info[p][2]
-            new = []
-            for q, o in enumerate(ops):
-                if q == p or (o[0] == CALL and o[1] == k):
-                    continue
-                new.append([CALL, o[1] - 1] if o[0] == CALL and o[1] > k else o)
-        elif op[0] == CREATE:                            # drop it and its applications (with their calls), renumber
-            j = info[p][3]
-            gone = {info[q][2] for q, o in enumerate(ops) if o[0] == APPLY and o[1] == j and info[q][4] is not None}
-            new = []
-            for q, o in enumerate(ops):
-                if q == p or (o[0] == APPLY and o[1] == j) or (o[0] == CALL and o[1] in gone):
-                    continue
-                if o[0] == CALL:
-                    o = [CALL, o[1] - sum(1 for g in gone if g < o[1])]
-                elif o[0] == APPLY and o[1] > j:
-                    o = [APPLY, o[1] - 1] + o[2:]
-                new.append(o)
-        else:
-            new = ops[:p] + ops[p + 1:]
-        out.append(dict(c, ops=new))
+    out = [without(c, p) for p in range(len(c['ops']))]
     if c['init'] != UNSET:
         out.append(dict(c, init=UNSET))
     if c.get('proc', UNSET) != UNSET:
         out.append(dict(c, proc=UNSET))
-    return [x for x in out if awkward_ok(x)]
+    return [x for x in out if history_ok(x)]
 
 
 def evaluate(ck, cases):
@@ -424,10 +649,15 @@ def run(tier, seed, replay=None):
     hist = {'streams': {}, 'decorators': {n: 0 for n in DNAMES}, 'targets': {}, 'observations': {}, 'proc_start': {},
             'lengths': {}, 'toggle_kinds': {}, 'created_decorator_objects': {n: 0 for n in DNAMES},
             'applied_decorator_objects': {n: 0 for n in DNAMES}, 'split_create_enabled_apply_disabled': 0,
-            'split_create_disabled_apply_enabled': 0}
+            'split_create_disabled_apply_enabled': 0,
+            'decorated_again': {'given_object': 0, 'returned_object': 0, 'with_kept_decorator_object': 0,
+                                'first_enabled_then_disabled': 0, 'first_disabled_then_enabled': 0, 'same_setting': 0},
+            'subclass_decorated': {'with_kept_decorator_object': 0, 'base_enabled_subclass_disabled': 0,
+                                   'base_disabled_subclass_enabled': 0, 'same_setting': 0, 'base_is_itself_a_subclass': 0},
+            'not_an_input_nothing_happens': 0}
     disagreements = {}
     max_len = 0
-    n_wit = n_split = split_cases = 0
+    n_wit = n_split = split_cases = again_cases = sub_cases = 0
     for c, i, m in zip(cases, impl, model):
         st = c['stream']
         hist['streams'][st] = hist['streams'].get(st, 0) + 1
@@ -435,8 +665,24 @@ def run(tier, seed, replay=None):
         b = min(len(c['ops']) // 10 * 10, 200)
         hist['lengths'][f'{b}+'] = hist['lengths'].get(f'{b}+', 0) + 1
         max_len = max(max_len, len(c['ops']))
-        for op, env, n_obj, n_created, d, c_env in walk(c):
-            if op[0] == DECORATE:
+        for r in walk2(c):
+            op, env, n_obj, n_created, d, c_env = r['op'], r['env'], r['n_obj'], r['n_created'], r['d'], r['c_env']
+            if op[0] in (REDECO, SUBDECO):
+                if d is None:
+                    hist['not_an_input_nothing_happens'] += 1
+                    continue
+                hist['decorators'][DNAMES[d]] += 1
+                hh = hist['decorated_again' if op[0] == REDECO else 'subclass_decorated']
+                if (op[3] if op[0] == REDECO else op[2]) == 1:
+                    hh['with_kept_decorator_object'] += 1
+                was, now = r['src']['env'] == 0, env == 0
+                if op[0] == REDECO:
+                    hh['returned_object' if op[2] else 'given_object'] += 1
+                    hh['same_setting' if was == now else 'first_enabled_then_disabled' if now else 'first_disabled_then_enabled'] += 1
+                else:
+                    hh['same_setting' if was == now else 'base_enabled_subclass_disabled' if now else 'base_disabled_subclass_enabled'] += 1
+                    hh['base_is_itself_a_subclass'] += bool(r['src']['sub'])
+            elif op[0] == DECORATE:
                 hist['decorators'][DNAMES[op[1]]] += 1
                 hist['targets'][str(op[2])] = hist['targets'].get(str(op[2]), 0) + 1
             elif op[0] == CREATE:
@@ -453,11 +699,13 @@ def run(tier, seed, replay=None):
         if i and 'obs' in i:
             for o in i['obs']:
                 hist['observations'][OBS.get(o, str(o))] = hist['observations'].get(OBS.get(o, str(o)), 0) + 1
-        n_dec, n_call, wit, split = features(c)
+        n_dec, n_call, wit, split, again, sub = features(c)
         n_wit += wit
         n_split += split
         split_cases += split >= 1
-        ck.note_case(json.dumps([c['proc'], c['init'], c['ops']]), nontrivial=wit >= 1 or split >= 1)
+        again_cases += sum(again) >= 1
+        sub_cases += sum(sub) >= 1
+        ck.note_case(json.dumps([c['proc'], c['init'], c['ops']]), nontrivial=wit >= 1 or split >= 1 or sum(again) >= 1 or sum(sub) >= 1)
         corr, prop, what = judge(c, i, m)
         if corr and prop:
             ck.traces_validated += 1
@@ -491,16 +739,27 @@ def run(tier, seed, replay=None):
     if replay is None:
         share = len(ck.nontrivial) / max(1, ck.evaluations)
         sshare = split_cases / max(1, ck.evaluations)
+        ashare = again_cases / max(1, ck.evaluations)
+        bshare = sub_cases / max(1, ck.evaluations)
         ck.oblige('generator:non-degenerate', 'correspondence',
                   share >= 0.4 and sshare >= 0.12 and all(v > 0 for v in hist['decorators'].values())
                   and all(v > 0 for v in hist['applied_decorator_objects'].values())
-                  and hist['split_create_enabled_apply_disabled'] > 0 and hist['split_create_disabled_apply_enabled'] > 0,
+                  and hist['split_create_enabled_apply_disabled'] > 0 and hist['split_create_disabled_apply_enabled'] > 0
+                  and ashare >= 0.08 and bshare >= 0.05
+                  and all(hist['decorated_again'][k] > 0 for k in ('given_object', 'returned_object', 'with_kept_decorator_object',
+                                                                   'first_enabled_then_disabled', 'first_disabled_then_enabled'))
+                  and all(hist['subclass_decorated'][k] > 0 for k in ('base_enabled_subclass_disabled', 'base_disabled_subclass_enabled',
+                                                                      'with_kept_decorator_object')),
+                  f'{ashare:.2f} of the histories decorate an object again after the switch flipped since its earlier decoration '
+                  f'({hist["decorated_again"]}), {bshare:.2f} decorate a subclass after the switch flipped since the decoration of its '
+                  f'base class ({hist["subclass_decorated"]}); '
                   f'{share:.2f} of the histories call an object after the switch flipped since its decoration or apply a decorator '
                   f'object after the switch flipped since its creation ({sshare:.2f} the latter: '
                   f'{hist["split_create_enabled_apply_disabled"]} applications created-enabled/applied-disabled, '
                   f'{hist["split_create_disabled_apply_enabled"]} created-disabled/applied-enabled); decorators {hist["decorators"]}; '
                   f'applied decorator objects {hist["applied_decorator_objects"]}')
     ck.coverage.update({'distribution': hist, 'max_history_length': max_len, 'inert_toggle_witnesses': n_wit, 'create_toggle_apply_witnesses': n_split,
+                        'histories_with_decorate_toggle_decorate_again': again_cases, 'histories_with_base_toggle_subclass': sub_cases,
                         'disagreements': sum(len(v) for v in disagreements.values())})
     zipped = list(zip(cases, impl, model))
     ck.samples = [{'case': c, 'impl': i, 'model_then_spec': m} for c, i, m in zipped[:2] + zipped[len(zipped) // 2:len(zipped) // 2 + 2] + zipped[-2:]]
@@ -512,15 +771,28 @@ def run(tier, seed, replay=None):
         'decorator object is being created without being applied (both must be 0)',
         'decorator objects: for_all_methods(inner), pedantic(), pedantic(require_docstring=False), pedantic_require_docstring(); for '
         'pedantic_class / pedantic_class_require_docstring / trace_class / timer_class, which cannot be split, the function object itself',
+        'decorated again / subclass: "the very object, unmodified" additionally requires that the namespace of NO other object that went '
+        'through a decorator (base classes included) changed; for a class the methods it defines itself are called, and for a subclass made '
+        'by op 9 the inherited method must behave as on an instance of the base class; the marks a checking class may show are those of '
+        'every decorator ever applied to that very class object',
+        'what the object GIVEN to an enabled decorator does afterwards is left open by the statement (specification: OUnspec, code 9): such '
+        'calls are compared with the model only; an enabled decorator applied to the product of an enabled decorator (pedantic rejects its '
+        'own wrappers, a class decorated twice trips over the installed hook) is not generated, like the other targets enabled decorators reject',
         'single-threaded histories; values of the variable outside {unset,"0","1"} are compared with the model only (outside the statement)']
     return ck.finish(
         rule='env-history: exhaustive small scope (start value of the process x initial value x toggle x 7 decorators x toggle, called before '
-             'and after; the same with the decorator object created, the switch toggled, and the object applied - twice) + random '
-             'in-domain histories (decorate in one go / create / apply / call / toggle) + near-miss (flip the switch right after / right '
-             'before a decoration, or between creation and application of a decorator object, by every means) + '
-             'malformed (values outside the domain, dangling indices, targets an enabled decorator rejects while disabled); '
+             'and after; the same with the decorator object created, the switch toggled, and the object applied - twice; the same with '
+             'the decorated object (what was given / what came back) decorated AGAIN after the toggle, directly or with a kept decorator '
+             'object; the same with a fresh SUBCLASS of the decorated class decorated after the toggle, then the base class decorated again '
+             'and a second subclass) + random '
+             'in-domain histories (decorate in one go / create / apply / decorate again / decorate a subclass / call / toggle) + near-miss '
+             '(flip the switch right after / right before a decoration, between creation and application of a decorator object, between '
+             'two decorations of the same object, between the decoration of a class and of its subclass, by every means) + '
+             'malformed (values outside the domain, dangling indices, a class decorator on a function and vice versa, targets an enabled '
+             'decorator rejects while disabled); '
              'distinct = (process start value, initial value, operations); non-trivial = an object is called after the switch changed '
-             'between enabled and disabled since its decoration, or a decorator object is applied after such a change since its creation',
+             'between enabled and disabled since its decoration, a decorator object is applied after such a change since its creation, '
+             'an object is decorated again / a subclass is decorated after such a change since the (base) object was decorated',
         checker_cmd='make -C coq Props/C09.vo && coqc -Q coq PV coq/Props/C09.v (Print Assumptions under every theorem)',
         trusted_base=['Coq 8.16.1 kernel (coqc; vm_compute for model evaluation and `good`)',
                       'translator/t_env.py (Python ast -> Gen/Env.v: env_var_logic.py, guards, shortcuts, cross reference)',
